@@ -38,7 +38,7 @@ def _drive(coro):
 def ob_gc_pass(k0: int, t0: int, x0: int, k1: int, t1: int, x1: int) -> str:
     """
     pre: 0 <= k0 < 4 and 0 <= k1 < 4 and 1 <= t0 <= 200 and 1 <= t1 <= 200 and 0 <= x0 < 8 and 0 <= x1 < 8
-    pre: THOROUGH or (k1 == 0 and x0 in (0, 1, 3))
+    pre: k1 == 0 and (THOROUGH or x0 in (0, 1, 3))
     post: _.startswith("ok")
     """
     logging.disable(logging.CRITICAL)
